@@ -21,6 +21,7 @@ class EigHooks(GslHooks):
         GslHooks.__init__(self)
         self.calls = []
         self.vectors = []
+        self.vec_writes = {}
 
     def external_call(self, it, name, node, args, this_cell):
         if name == 'gsl_vector_alloc':
@@ -47,7 +48,11 @@ class EigHooks(GslHooks):
             self.calls.append(('gsl_eigen_hermv_sort', vals[0], vals[1], vals[2], it.loc(node)))
             return 0
         if name in ('gsl_vector_set',):
-            self.calls.append(('gsl_vector_set', it.eval(args[0]), it.loc(node)))
+            v = it.eval(args[0])
+            i = it.eval(args[1])
+            val = it.eval(args[2])
+            self.calls.append(('gsl_vector_set', v, it.loc(node)))
+            self.vec_writes.setdefault(v.region.name, {})[i] = it.to_poly(val)
             return None
         if name.startswith('std::make_pair') or name.startswith('std::pair<'):
             vals = []
@@ -78,10 +83,9 @@ def syntactic(db, rep, f, unit):
         if k == 'CallExpr' and n.get('callee') in ('gsl_vector_set', 'gsl_matrix_complex_set', 'gsl_matrix_complex_set_all'):
             a0 = strip(n['args'][0]) if n.get('args') else None
             if a0 is not None and a0.get('k') == 'DeclRefExpr' and a0.get('id') in outs:
-                nbad += 1
-                if nbad <= 3:
-                    rep.fail('G.eig.path', 'GetEigenSystem/write@%s' % unit.loc(n), unit.loc(n),
-                             'eigenvalues/eigenvectors produced only by the Hermitian eigensolver', 'written directly by %s (closed-form path)' % n['callee'], f['name'])
+                # a path that writes the outputs itself is judged by the interpretation below (it must be an exact
+                # decomposition for the class of inputs that reaches it); by itself it is not a violation
+                rep.notes.append('outputs also written directly by %s at %s' % (n['callee'], unit.loc(n)))
         elif k == 'BinaryOperator' and n.get('op') == '/' and n.get('t') in ('double', 'std::complex<double>'):
             den = strip(n['c'][1])
             if den is not None and den.get('k') not in ('FloatingLiteral', 'IntegerLiteral') and not ('cv' in den):
@@ -122,54 +126,88 @@ def run(db, rep, tier):
     n = 0
     for d in DIMS:
         S, _ = basis.extract_S(db, d, 'a')
-        for order in (0, 1):
-            n += 1
-            site = 'GetEigenSystem/%d/order=%d' % (d, order)
-            this, reg = make_suv('v', d, 'a')
-            hooks = EigHooks()
-            it = Interp(unit, hooks)
-            try:
-                res = it.call(f, this, [order])
-            except Thrown as t:
-                rep.fail('G.eig.path', site, unit.loc(t.node), 'a decomposition for dimension %d' % d, 'throw: %s' % t.what, f['name'])
-                continue
-            except (Unsupported, IndexViolation) as e:
-                if nbad:
-                    rep.notes.append('%s: path not interpretable (%s); closed-form sites already reported' % (site, str(e)[:120]))
+        lam = basis.basis(db, d)
+        diag_slots = [k for k in range(d * d) if all(r == c or lam[k][r][c].is_zero() for r in range(d) for c in range(d))]
+        for klass in ('dense', 'diagonal'):
+            for order in (0, 1):
+                n += 1
+                site = 'GetEigenSystem/%d/%s/order=%d' % (d, klass, order)
+                content = None
+                if klass == 'diagonal':
+                    content = lambda k, ds=diag_slots: Poly.var('a%d' % k) if k in ds else Poly.const(0)
+                this, reg = make_suv('v', d, 'a', content)
+                hooks = EigHooks()
+                it = Interp(unit, hooks)
+                try:
+                    res = it.call(f, this, [order])
+                except Thrown as t:
+                    rep.fail('G.eig.path', site, unit.loc(t.node), 'a decomposition for dimension %d' % d, 'throw: %s' % t.what, f['name'])
                     continue
-                raise
-            solver = [c for c in hooks.calls if c[0] == 'gsl_eigen_hermv']
-            sorts = [c for c in hooks.calls if c[0] == 'gsl_eigen_hermv_sort']
-            sets = [c for c in hooks.calls if c[0] == 'gsl_vector_set']
-            ok = True
-            why = ''
-            if len(solver) != 1:
-                ok, why = False, 'the Hermitian eigensolver is called %d times on this path' % len(solver)
-            else:
-                _, entries, evals, evecs, ws, where = solver[0]
-                for (r, c), e in S.entries.items():
-                    if not entries[(r, c)].equals(e):
-                        ok, why = False, 'matrix entry (%d,%d) passed to the solver is %s, not that of the represented matrix' % (r, c, entries[(r, c)])
-                        break
-                if ok:
-                    first = res.fields['first'].value if isinstance(res, Obj) and 'first' in res.fields else None
-                    second = res.fields['second'].value if isinstance(res, Obj) and 'second' in res.fields else None
-                    pf = first.fields['p'].value if isinstance(first, Obj) and 'p' in first.fields else None
-                    ps = second.fields['p'].value if isinstance(second, Obj) and 'p' in second.fields else None
-                    if not (pf == evals and ps == evecs):
+                except (Unsupported, IndexViolation) as e:
+                    if nbad:
+                        rep.notes.append('%s: path not interpretable (%s); closed-form sites already reported' % (site, str(e)[:120]))
+                        continue
+                    raise
+                solver = [c for c in hooks.calls if c[0] == 'gsl_eigen_hermv']
+                sorts = [c for c in hooks.calls if c[0] == 'gsl_eigen_hermv_sort']
+                first = res.fields['first'].value if isinstance(res, Obj) and 'first' in res.fields else None
+                second = res.fields['second'].value if isinstance(res, Obj) and 'second' in res.fields else None
+                pf = first.fields['p'].value if isinstance(first, Obj) and 'p' in first.fields else None
+                ps = second.fields['p'].value if isinstance(second, Obj) and 'p' in second.fields else None
+                # the matrix of the input under analysis
+                mapping = {}
+                if klass == 'diagonal':
+                    mapping = {('v', 'a%d' % k): Poly.const(0) for k in range(d * d) if k not in diag_slots}
+                Sin = {rc: CPoly(e.re.subst(mapping), e.im.subst(mapping)) for rc, e in S.entries.items()}
+                ok = True
+                why = ''
+                if len(solver) == 1:
+                    _, entries, evals, evecs, ws, where = solver[0]
+                    for (r, c), e in Sin.items():
+                        if not entries[(r, c)].equals(e):
+                            ok, why = False, 'matrix entry (%d,%d) passed to the solver is %s, not that of the represented matrix' % (r, c, entries[(r, c)])
+                            break
+                    if ok and not (pf == evals and ps == evecs):
                         ok, why = False, 'the objects returned are not the solver outputs'
+                    if ok and hooks.vec_writes.get(evals.region.name):
+                        ok, why = False, 'eigenvalues overwritten after the solver call'
+                elif len(solver) == 0:
+                    # a path that builds the outputs itself: accepted only as the exact decomposition of a diagonal matrix
+                    wr = hooks.vec_writes.get(pf.region.name, {}) if isinstance(pf, Ptr) and pf.region is not None else {}
+                    try:
+                        V = matrix_of(ps) if ps is not None else None
+                    except Unsupported:
+                        V = None
+                    if klass != 'diagonal' or V is None or sorted(wr) != list(range(d)):
+                        rep.break_('%s: the outputs are produced without the Hermitian eigensolver by a path this analysis cannot validate' % site)
+                        continue
+                    cols = {}
+                    for i in range(d):
+                        ones = [r for r in range(d) if V.entries.get((r, i)) is not None and V.entries[(r, i)].equals(CPoly(1, 0))]
+                        zeros = [r for r in range(d) if V.entries.get((r, i)) is not None and V.entries[(r, i)].is_zero()]
+                        if len(ones) != 1 or len(zeros) != d - 1:
+                            ok, why = False, 'eigenvector %d of a diagonal matrix is not a unit vector' % i
+                            break
+                        cols[i] = ones[0]
+                        if not wr[i].equals(Sin[(ones[0], ones[0])].re):
+                            ok, why = False, 'eigenvalue %d is %s, not the diagonal entry %d of the matrix' % (i, wr[i], ones[0])
+                            break
+                    if ok and sorted(cols.values()) != list(range(d)):
+                        ok, why = False, 'eigenvectors are not a permutation of the unit vectors'
+                    evals, evecs = pf, ps
+                else:
+                    ok, why = False, 'the Hermitian eigensolver is called %d times on this path' % len(solver)
                 if ok and order and not (len(sorts) == 1 and sorts[0][1] == evals and sorts[0][2] == evecs and sorts[0][3] == 0):
-                    ok, why = False, 'ordering requested but the outputs are not sorted ascending by value (%s)' % (sorts,)
+                    ok, why = False, 'ordering requested but the outputs are not sorted ascending by value on this path (sort calls: %d)' % len(sorts)
                 if ok and not order and sorts:
                     ok, why = False, 'sorted although ordering was not requested'
-                if ok and sets:
-                    ok, why = False, 'eigenvalues written outside the solver'
                 if ok and hooks.divisions:
                     ok, why = False, 'input-dependent division at %s' % unit.loc(hooks.divisions[0][0])
-            if ok:
-                rep.ok('G.eig.path')
-                if d == 3:
-                    rep.sample('G.eig.path', 'd=3 order=%d: hermv(S_3(c)) -> (eigenvalues, eigenvectors)%s' % (order, ', sorted ascending' if order else ''))
-            else:
-                rep.fail('G.eig.path', site, unit.loc(f), 'outputs = Hermitian eigensolver applied to the represented matrix; sorted ascending iff requested', why, f['name'])
-    rep.floor('G.eig.path', n, 10)
+                if ok:
+                    rep.ok('G.eig.path')
+                    if d == 3 and klass == 'dense':
+                        rep.sample('G.eig.path', 'd=3 order=%d: hermv(S_3(c)) -> (eigenvalues, eigenvectors)%s' % (order, ', sorted ascending' if order else ''))
+                else:
+                    rep.fail('G.eig.path', site, unit.loc(f), 'outputs = a valid decomposition of the represented matrix (Hermitian eigensolver, or exact for a diagonal matrix); sorted ascending iff requested',
+                             why, f['name'])
+    rep.floor('G.eig.path', n, 20)
